@@ -5,6 +5,7 @@ import (
 	"fmt"
 	"io"
 	"os"
+	"sort"
 	"syscall"
 
 	"github.com/hashicorp/raft-wal/types"
@@ -63,11 +64,45 @@ type Gen struct {
 	reads int
 	// maxRead is the largest buffer handed to ReadAt (allocation bound)
 	maxRead int
+
+	vfs        *simVFS
+	pendingDel map[*sched.Task][]string
+	flushing   bool
+}
+
+// flushDeletes applies the Delete calls a task has issued since its last other
+// seam call, in sorted name order. The code under test iterates a Go map when
+// it deletes segment files, so the order of its Delete calls is random; by
+// collecting each run of deletes and executing it sorted, the yield, fault and
+// crash points inside the run land on the same files in every execution of a
+// seed (the WAL only logs Delete errors, so deferring the effect to the end of
+// the run of calls changes nothing it can observe).
+func (g *Gen) flushDeletes() {
+	t := g.sim.Current()
+	if t == nil || g.flushing {
+		return
+	}
+	names := g.pendingDel[t]
+	if len(names) == 0 {
+		return
+	}
+	delete(g.pendingDel, t)
+	sort.Strings(names)
+	g.flushing = true
+	defer func() { g.flushing = false }()
+	for _, n := range names {
+		if err := g.vfs.deleteNow(n); err != nil {
+			g.ex.probes.Add("delete_failed", 1)
+		}
+	}
 }
 
 func (g *Gen) enter(c seamCall) (action, bool) {
 	if g.sim.Current() == nil {
 		return actNone, false
+	}
+	if c.Kind != "Delete" {
+		g.flushDeletes()
 	}
 	g.sim.MaybeYield("seam:" + c.Kind)
 	ex := g.ex
@@ -142,6 +177,19 @@ func (v *simVFS) Create(dir, name string, size uint64) (types.WritableFile, erro
 }
 
 func (v *simVFS) Delete(dir, name string) error {
+	t := v.g.sim.Current()
+	if t == nil {
+		return errDead
+	}
+	if v.g.pendingDel == nil {
+		v.g.pendingDel = map[*sched.Task][]string{}
+	}
+	v.g.vfs = v
+	v.g.pendingDel[t] = append(v.g.pendingDel[t], name)
+	return nil
+}
+
+func (v *simVFS) deleteNow(name string) error {
 	c := seamCall{Kind: "Delete", File: name, Mut: true}
 	act, live := v.g.enter(c)
 	if !live {
